@@ -1757,6 +1757,28 @@ impl<K: Hash + Eq, V, RH: BuildHasher, REH: BuildHasher, FH: BuildHasher, FEH: B
     }
 }
 
+#[cfg(feature = "verif-hooks")]
+impl<K, V, RH, REH, FH, FEH> AdaptiveCache<K, V, RH, REH, FH, FEH> {
+    /// Verification hook: `(recent, recent_evict, frequent, frequent_evict)`.
+    #[doc(hidden)]
+    #[allow(clippy::type_complexity)]
+    pub fn verif_parts(
+        &self,
+    ) -> (
+        &RawLRU<K, V, DefaultEvictCallback, RH>,
+        &RawLRU<K, V, DefaultEvictCallback, REH>,
+        &RawLRU<K, V, DefaultEvictCallback, FH>,
+        &RawLRU<K, V, DefaultEvictCallback, FEH>,
+    ) {
+        (
+            &self.recent,
+            &self.recent_evict,
+            &self.frequent,
+            &self.frequent_evict,
+        )
+    }
+}
+
 #[cfg(test)]
 mod test {
     use crate::{AdaptiveCache, Cache};
